@@ -358,6 +358,11 @@ class _G(object):
             # memory names need not be unique (a helper that creates MemBlock(name='scratch')
             # instantiated twice): nets and simulators identify a memory by object / id
             m['name'] = self.mems[-1]['name']
+            if not rom and not self.mems[-1].get('rom'):
+                # ... and is read through the very address wire its namesake is read through
+                m['aw'] = self.mems[-1]['aw']
+                m['async'] = self.mems[-1]['async']
+                m['namesake'] = len(self.mems) - 1
         if cfg.get('ports_exact_prob') and rng.random() < cfg['ports_exact_prob']:
             m['ports_exact'] = True     # declared with max_read/write_ports = the ports it has
         if rom:
@@ -388,9 +393,10 @@ class _G(object):
         self.mems.append(m)
         return len(self.mems) - 1
 
-    def read_port(self, mi):
+    def read_port(self, mi, addr=None):
         m = self.mems[mi]
-        addr = self.want(m['aw'], sync=not m['async'])
+        if addr is None:
+            addr = self.want(m['aw'], sync=not m['async'])
         n = self.name('t')
         self.add_wire('W', m['bw'], n, sync=False)
         self.add_net('m', mi, [addr], [n])
@@ -452,6 +458,12 @@ def gen_script(rng, cfg):
             g.dup_net()
         else:
             g.comb_net(rng.choice(fav if rng.random() < 0.8 else ops))
+    for mi in mis:
+        ns = g.mems[mi].get('namesake')
+        if ns is not None:
+            shared = [nt['a'][0] for nt in g.nets if nt['op'] == 'm' and nt['p'] == ns]
+            if shared:
+                g.read_port(mi, addr=shared[0])
     for mi in mis:
         if g.mems[mi]['rom'] is None:
             g.write_ports(mi)
